@@ -96,7 +96,7 @@ func cliResetFlags() {
 	// flags cobra adds lazily (help) are not in the snapshot: reset them too; and each flag set forgets which flags
 	// were given on earlier command lines (pflag keeps them in unexported maps: NFlag(), Visit() read those)
 	for _, c := range cliAllCommands() {
-		for _, fs := range []*pflag.FlagSet{c.Flags(), c.PersistentFlags(), c.LocalFlags(), c.InheritedFlags()} {
+		for _, fs := range cliFlagSets(c) {
 			cliForget(fs)
 		}
 		if f := c.Flags().Lookup("help"); f != nil {
@@ -108,6 +108,28 @@ func cliResetFlags() {
 
 // cliPreRun, when set, runs after the flag values were restored and before the command line is executed.
 var cliPreRun func()
+
+// cliFlagPanics: commands whose flag sets cannot be assembled (cobra panics when a persistent option of a parent
+// collides with an option of the command); found once, reported by C19, and never touched again by the driver.
+var cliFlagPanics = map[string]string{}
+var cliFlagSetsDone = map[*cobra.Command][]*pflag.FlagSet{}
+
+func cliFlagSets(c *cobra.Command) []*pflag.FlagSet {
+	if fs, ok := cliFlagSetsDone[c]; ok {
+		return fs
+	}
+	fs := []*pflag.FlagSet{c.Flags(), c.PersistentFlags()}
+	func() {
+		defer func() {
+			if r := recover(); r != nil {
+				cliFlagPanics[c.CommandPath()] = fmt.Sprint(r)
+			}
+		}()
+		fs = append(fs, c.LocalFlags(), c.InheritedFlags())
+	}()
+	cliFlagSetsDone[c] = fs
+	return fs
+}
 
 func cliForget(fs *pflag.FlagSet) {
 	v := reflect.ValueOf(fs).Elem()
